@@ -60,11 +60,12 @@ AuxInit == [tid |-> "", mem |-> MemInit,
             released |-> {},         \* steps that closed their outermost hold in this lifetime
             lostEdge |-> {},         \* files that lost a consumer edge in this trace
             inTxn |-> FALSE,
+            txnSubmits |-> <<>>,     \* paths for which a hash job was queued inside the open transaction
             draining |-> FALSE,
             dispatchedAfterFail |-> FALSE]
 
 CounterNames == {"amend", "read", "final_reads_checked", "tainted", "finalize_end", "removed_files", "write", "commit", "wellformed", "transition", "pop_dispatch", "pop_none", "cmd_start",
-                 "phase_end", "rpc_reject", "rpc_ok", "hold", "traces", "pop_none_with_eligible"}
+                 "phase_end", "rpc_reject", "rpc_ok", "hold", "traces", "pop_none_with_eligible", "hash_submit"}
 CntInit == [c \in CounterNames |-> 0]
 Bump(c, name) == [c EXCEPT ![name] = @ + 1]
 
@@ -213,12 +214,21 @@ OnCommit(e, lineNo) ==
 
 OnBegin(e, lineNo) ==
   /\ bad' = bad \o Mk(e, lineNo, "C15", IF aux.inTxn THEN {<<"transactions_interleave", "">>} ELSE {})
-  /\ aux' = [aux EXCEPT !.inTxn = TRUE]
+  /\ aux' = [aux EXCEPT !.inTxn = TRUE, !.txnSubmits = <<>>]
   /\ UNCHANGED <<st, cnt>>
 
-OnRollback(e) ==
-  /\ aux' = [aux EXCEPT !.inTxn = FALSE]
-  /\ UNCHANGED <<st, bad, cnt>>
+\* C15: a transaction that is rolled back leaves the stored workflow as it was; work it handed to
+\* the hash queue meanwhile is not taken back by the rollback and changes the stored state later
+OnRollback(e, lineNo) ==
+  /\ bad' = bad \o Mk(e, lineNo, "C15", IF aux.txnSubmits # <<>>
+                                         THEN {<<"rolled_back_request_left_hash_jobs_queued", aux.txnSubmits>>} ELSE {})
+  /\ aux' = [aux EXCEPT !.inTxn = FALSE, !.txnSubmits = <<>>]
+  /\ UNCHANGED <<st, cnt>>
+
+OnHashSubmit(e) ==
+  /\ aux' = IF aux.inTxn /\ e.new THEN [aux EXCEPT !.txnSubmits = Append(@, e.path)] ELSE aux
+  /\ cnt' = Bump(cnt, "hash_submit")
+  /\ UNCHANGED <<st, bad>>
 
 OnPop(e, lineNo) ==
   IF IsNoState(st) THEN UNCHANGED <<st, aux, bad, cnt>> ELSE
@@ -591,7 +601,8 @@ Handle(e, lineNo) ==
   CASE e.ev = "proc_start" -> OnProcStart(e)
     [] e.ev = "commit" -> OnCommit(e, lineNo)
     [] e.ev = "begin" -> OnBegin(e, lineNo)
-    [] e.ev = "rollback" -> OnRollback(e)
+    [] e.ev = "rollback" -> OnRollback(e, lineNo)
+    [] e.ev = "hash_submit" -> OnHashSubmit(e)
     [] e.ev = "pop" -> OnPop(e, lineNo)
     [] e.ev = "cmd_start" -> OnCmdStart(e, lineNo)
     [] e.ev = "cmd_end" -> OnCmdEnd(e)
